@@ -430,6 +430,28 @@ func genC19() (string, []string) {
 `, reg, sig, vuse, callback, inner, outer, id, nOuter, nInner))
 		}
 	}
+	// host-built struct instances: NewStruct / SetAttr / GetAttr round trips, independence of instances built from one
+	// base, and of script-built instances from host-built ones
+	add("newstruct_instances_independent", prelude(3, 0)+`	if _, err := verifEval(vm, verifMkFS(nil), "type T struct {\n\tX int\n\tS string\n\tB byte\n}\nfunc (t *T) Get() int { return t.X + 1 }\nfunc fresh() int { t := &T{}; return t.X*10 + len(t.S) }\nfunc rd(t *T) int { return t.X }", 0); err != nil {
+		verifAssert(false, "C19/newstruct/eval")
+		return
+	}
+	base := vm.Get("main.T")
+	s1 := NewStruct(base, []Value{String("X"), Int32(a[0]), String("S"), String("one")})
+	s2 := NewStruct(base, []Value{String("X"), Int32(a[1]), String("S"), String("two!")})
+	s3 := NewStruct(base, nil)
+	verifAssert(s1.GetAttr("X").num == float64(a[0]) && s1.GetAttr("S").String() == "one", "C19/newstruct/first-instance-keeps-its-fields")
+	verifAssert(s2.GetAttr("X").num == float64(a[1]) && s2.GetAttr("S").String() == "two!", "C19/newstruct/second-instance")
+	verifAssert(s3.GetAttr("X").num == 0 && s3.GetAttr("S").String() == "" && s3.GetAttr("B").num == 0, "C19/newstruct/unset-fields-are-zero")
+	s2.SetAttr("X", Int32(a[2]))
+	verifAssert(s1.GetAttr("X").num == float64(a[0]) && s3.GetAttr("X").num == 0, "C19/newstruct/setattr-touches-one-instance")
+	rets, err := vm.Call("main.fresh", 1)
+	verifAssert(err == nil && len(rets) == 1 && rets[0].num == 0, "C19/newstruct/script-literal-still-zero-valued")
+	rets, err = vm.Call("main.rd", 1, s1)
+	verifAssert(err == nil && len(rets) == 1 && rets[0].num == float64(a[0]), "C19/newstruct/script-reads-host-built-instance")
+	rets, err = vm.Func(s2.GetAttr("Get"), 1)
+	verifAssert(err == nil && len(rets) == 1 && rets[0].num == float64(a[2]+1), "C19/newstruct/method-of-host-built-instance")
+`)
 	// results and argument windows are not shared between host calls: a result slice still held by the host keeps its
 	// values across the next Call/Func, and a native invoked DIRECTLY by Call keeps its args across a nested Call
 	add("held_results_survive_next_call", prelude(3, 0)+`	if _, err := verifEval(vm, verifMkFS(nil), "func add(x, y int) int { return x + y }\nfunc pair(x, y int) (int, int) { return y, x }", 0); err != nil {
